@@ -45,6 +45,143 @@ def taxon_id(s):
     return int(s[1:])
 
 
+def names_tok(names):
+    return ".".join(str(taxon_id(x)) for x in names)
+
+
+class CliFiles:
+    "the files a CLI command is run on: databases are saved / located, query signatures written one per file"
+
+    def __init__(self, tmpdir, n):
+        self.d = os.path.join(tmpdir, f"cli{n}")
+        os.makedirs(self.d)
+
+    def db(self, i, db):
+        if isinstance(db, LCA_Database):
+            fn = os.path.join(self.d, f"db{i}.lca.json")
+            db.save(fn)
+            return fn
+        return db.dbfile                      # a SQLite form: its own file (loaded afresh by the command)
+
+    def sig(self, i, ss):
+        fn = os.path.join(self.d, f"q{i}.sig")
+        with open(fn, "w") as fp:
+            sourmash.save_signatures([ss], fp)
+        return fn
+
+
+def run_main(argv, capture=False):
+    "sourmash.__main__.main(argv) in process; returns (exit code or None, stdout text)"
+    import contextlib
+    import io
+    from sourmash.__main__ import main as sm_main
+    buf = io.StringIO()
+    try:
+        with contextlib.redirect_stdout(buf):
+            sm_main(argv)
+    except SystemExit as e:
+        return e.code, buf.getvalue()
+    return None, buf.getvalue()
+
+
+def run_cli_summarize(files, dbs, sigs, thr, scaled, ign):
+    import csv as _csv
+    out = os.path.join(files.d, "summ.csv")
+    argv = ["lca", "summarize", "--db"] + [files.db(i, d) for i, d in enumerate(dbs)] + \
+        ["--query"] + [files.sig(i, s) for i, s in enumerate(sigs)] + ["--threshold", str(thr), "-o", out]
+    if scaled:
+        argv += ["--scaled", str(scaled)]
+    if ign:
+        argv.append("--ignore-abundance")
+    code, _ = run_main(argv)
+    if code not in (None, 0):
+        return f"exit {code}"
+    blocks = {}
+    order = []
+    with open(out, newline="") as fp:
+        r = _csv.reader(fp)
+        rows = list(r)
+    if rows:
+        assert rows[0][0] == "count", rows[0]
+    for row in rows[1:]:
+        count, names, fn, total = row[0], row[1:9], row[9], row[12]
+        if fn not in blocks:
+            blocks[fn] = (int(float(total)), [])
+            order.append(fn)
+        blocks[fn][1].append(names_tok(names) + "=" + count)
+    # queries without any row still count: one block per selected query, in file order
+    res = []
+    for i, ss in enumerate(sigs):
+        fn = os.path.join(files.d, f"q{i}.sig")
+        if fn in blocks:
+            total, rws = blocks[fn]
+            res.append(f"{tok_of(str(ss))}:{total}:{join_or('|', sorted(rws))}")
+        else:
+            res.append(None)
+    return res
+
+
+def run_cli_classify(files, dbs, sigs, thr, scaled, maj):
+    import csv as _csv
+    out = os.path.join(files.d, "cls.csv")
+    argv = ["lca", "classify", "--db"] + [files.db(i, d) for i, d in enumerate(dbs)] + \
+        ["--query"] + [files.sig(i, s) for i, s in enumerate(sigs)] + ["--threshold", str(thr), "-o", out]
+    if scaled:
+        argv += ["--scaled", str(scaled)]
+    if maj:
+        argv.append("--majority")
+    code, _ = run_main(argv)
+    if code not in (None, 0):
+        return f"exit {code}"
+    with open(out, newline="") as fp:
+        rows = list(_csv.reader(fp))
+    assert rows[0][:2] == ["ID", "status"], rows[0]
+    return "ok " + join_or("/", [f"{tok_of(r[0])}:{r[1]}:{names_tok(r[2:10])}" for r in rows[1:]])
+
+
+def run_cli_rankinfo(files, dbs, scaled, min_num):
+    import re as _re
+    argv = ["lca", "rankinfo"] + [files.db(i, d) for i, d in enumerate(dbs)] + ["--minimum-num", str(min_num)]
+    if scaled:
+        argv += ["--scaled", str(scaled)]
+    code, text = run_main(argv)
+    if code not in (None, 0):
+        return f"exit {code}"
+    counts = _re.findall(r"^(\w+): (\d+) \(", text, _re.M)
+    if not counts:
+        return "ok -"
+    assert [c[0] for c in counts] == TAXLIST, counts
+    return "ok " + ",".join(c[1] for c in counts)
+
+
+def run_cli_compare(files, opts, csv1, csv2):
+    import csv as _csv
+    paths = []
+    for k, tokn in enumerate((csv1, csv2)):
+        fn = os.path.join(files.d, f"cmp{k}.csv")
+        with open(fn, "w", newline="") as fp:
+            w = _csv.writer(fp)
+            if tokn != "-":
+                for r in tokn.split("/"):
+                    w.writerow([] if r == "!" else [c.replace("~", " ") for c in r.split(";")])
+        paths.append(fn)
+    ws = opts.split(",")
+    num = lambda pre, dflt: next((int(x[len(pre):]) for x in ws if x.startswith(pre) and x[len(pre):].isdigit()), dflt)
+    argv = ["lca", "compare_csv"] + paths + ["-C", str(num("C", 2))]
+    if "nh" in ws:
+        argv.append("--no-headers")
+    if "f" in ws:
+        argv.append("-f")
+    code, text = run_main(argv)
+    if code not in (None, 0):
+        return f"exit {code}"
+    rows = []
+    for line in text.splitlines():
+        ident, verdict, lin = line.split(",", 2)
+        rows.append(f"{tok_of(ident)},{verdict},{names_tok(lin.split(';'))}")
+    return "ok " + join_or("|", sorted(rows))
+
+
 def run_lca_index(tmpdir, n, opts, sigs, csvtok):
     """`sourmash lca index` through the real argument parser, one signature per file, --report always given;
     returns (loaded database or None, observation)"""
@@ -175,7 +312,12 @@ def main():
                     mol = int(opts.get("mol", 0))
                     mh = MinHash(int(num), int(ksize), scaled=int(scaled), is_protein=(mol == 1),
                                  dayhoff=(mol == 2), hp=(mol == 3))
-                    mh.add_many(nat_list(hs))
+                    if opts.get("ab") == "1":             # an abundance sketch: hash h has abundance h % 5 + 1
+                        mh = MinHash(int(num), int(ksize), scaled=int(scaled), is_protein=(mol == 1),
+                                     dayhoff=(mol == 2), hp=(mol == 3), track_abundance=True)
+                        mh.set_abundances({h: h % 5 + 1 for h in nat_list(hs)})
+                    else:
+                        mh.add_many(nat_list(hs))
                     ss = SourmashSignature(mh, name=name_of(name), filename=name_of(filename))
                     if "md5" in opts and opts["md5"] != ss.md5sum():
                         res = "err Md5Mismatch"          # the generator's md5 (what the model is given) must be the real one
@@ -271,6 +413,72 @@ def main():
                     db, res = run_lca_index(tmpdir, nfile[0], a[1], [S[i] for i in nat_list(a[2])], a[3])
                     if db is not None:
                         D[int(a[0])] = db
+                elif op == "clisumm":
+                    nfile[0] += 1
+                    files = CliFiles(tmpdir, nfile[0])
+                    dbs = [D[i] for i in nat_list(a[0])]
+                    sigs = [S[i] for i in nat_list(a[1])]
+                    r = run_cli_summarize(files, dbs, sigs, int(a[2]), int(a[3]), bool(int(a[4])))
+                    if isinstance(r, str):
+                        res = r
+                    else:
+                        # a selected query without rows still has a block (total, no rows): the CSV cannot show it,
+                        # so blocks are printed for the queries that produced rows; the model does the same
+                        res = "ok " + join_or("/", [b for b in r if b is not None])
+                elif op == "clicls":
+                    nfile[0] += 1
+                    files = CliFiles(tmpdir, nfile[0])
+                    res = run_cli_classify(files, [D[i] for i in nat_list(a[0])], [S[i] for i in nat_list(a[1])],
+                                           int(a[2]), int(a[3]), bool(int(a[4])))
+                elif op == "clirank":
+                    nfile[0] += 1
+                    files = CliFiles(tmpdir, nfile[0])
+                    res = run_cli_rankinfo(files, [D[i] for i in nat_list(a[0])], int(a[1]), int(a[2]))
+                elif op == "clicmp":
+                    nfile[0] += 1
+                    res = run_cli_compare(CliFiles(tmpdir, nfile[0]), a[0], a[1], a[2])
+                elif op == "taxdb":
+                    from sourmash.tax.tax_utils import LineageDB, LineageDB_Sqlite, MultiLineageDB
+                    import csv as _csv
+                    nfile[0] += 1
+                    mdb = MultiLineageDB()
+                    for t in a[1:]:
+                        asg = {}
+                        ranks = set()
+                        if t != "-":
+                            for e in t.split("/"):
+                                i, l = e.split("=")
+                                lin = lineage_of(l) or ()
+                                asg[name_of(i)] = lin
+                                ranks.update(p.rank for p in lin)
+                        mdb.add(LineageDB(asg, ranks))
+                    if a[0] == "sql":
+                        fn = os.path.join(tmpdir, f"tax{nfile[0]}.db")
+                        mdb.save(fn, "sql")
+                        ldb = LineageDB_Sqlite.load(fn)
+                        rows = sorted(tok_of(i) + "=" + show_lineage(ldb[i]) for i in ldb)
+                        assert len(list(ldb.items())) == len(ldb) and bool(ldb) == (len(ldb) > 0)
+                        rk = sorted(rank_index(r) for r in ldb.available_ranks)
+                        res = f"ok n={len(ldb)} ranks={join_or(',', [str(r) for r in rk])} " + join_or("|", rows)
+                        ldb.conn.close()
+                    else:
+                        fn = os.path.join(tmpdir, f"tax{nfile[0]}.csv")
+                        mdb.save(fn, "csv")
+                        with open(fn, newline="") as fp:
+                            rr = list(_csv.reader(fp))
+                        assert rr[0] == ["identifiers"] + TAXLIST, rr[0]
+                        res = "ok " + join_or("|", sorted(tok_of(r[0]) + "=" + names_tok(r[1:]) for r in rr[1:]))
+                elif op == "match":
+                    res = f"ok {lca_utils.is_lineage_match(lineage_of(a[1]) or (), lineage_of(a[2]) or (), rank_name(int(a[0])))}"
+                elif op == "mklin":
+                    names = [taxon(int(x)) for x in nat_list(a[0])]
+                    sep = ";" if len(names) > 1 and int(a[0].split(",")[0]) % 2 else ","
+                    res = "ok " + show_lineage(lca_utils.make_lineage(sep.join(names)))
+                elif op == "disp":
+                    lin = lineage_of(a[0]) or ()
+                    names = lca_utils.zip_lineage(lin, truncate_empty=True)
+                    assert lca_utils.display_lineage(lin) == ";".join(names)
+                    res = "ok " + names_tok(names)
                 elif op == "pop":
                     lin = lineage_of(a[1]) or ()
                     res = "ok " + show_lineage(lca_utils.pop_to_rank(lin, rank_name(int(a[0]))))
@@ -285,6 +493,8 @@ def main():
                 else:
                     res = "bad-op"
             except BaseException as e:          # noqa: BLE001
+                if os.environ.get("LCA_TRACE"):
+                    import traceback; traceback.print_exc()
                 res = "err " + exc_name(e)
             out.write(res + "\n")
         out.flush()
